@@ -631,7 +631,12 @@ class C03(Prop):
                   "constant folding and the grammar's rewrites are sound; literal encodings round-trip for all int64; "
                   "switch table lookup equals the first matching arm; FULL statements (no excluded region) for stores through index "
                   "lvalues incl. a zero byte into a buffer (lvset_agrees) and for all `<` ranges at all int64 bounds (range_agrees, "
-                  "extract_agrees: the regenerated saturating helper range_from_end () never overflows and selects the reference range).  "
+                  "extract_agrees: the regenerated saturating helper range_from_end () never overflows and selects the reference range); "
+                  "heap model of add_array () with its five reference-count tests regenerated from array.c: whatever branch is taken the "
+                  "result holds p ++ r with one reference, an operand is reused only when the call held its only references, every array "
+                  "still referenced keeps its elements and an exact count (Heap.addArray_refines), compared with the real add_array on "
+                  "unit traces; the conditions of the grammar's typed rewrites are regenerated and fire only for TYPE_NUMBER operands "
+                  "(rw_guards_int).  "
                   "Whole programs: generated typed programs in sibling "
                   "spellings run in the real driver and must equal the LpcOps-based evaluator exactly; the reference "
                   "evaluator judges every result")
@@ -639,18 +644,23 @@ class C03(Prop):
                   "abstract in the theorems (FloatOps) and IEEE doubles in the driver; in-place fast paths keyed on reference counts "
                   "(add_array, string join, absorb / compose_mapping) are compared on generated self / aliased operand programs only "
                   "(no heap model); shift counts outside 0..63 are outside the model")
-    rule = ("cases = corpus + known-finding inputs + boundary list + seeded random cases from 19 families (binary/unary "
+    rule = ("cases = corpus + known-finding inputs + boundary list + seeded random cases from 21 families (binary/unary "
             "operators, op=, ++/--, index, range, index/range/char lvalues, integer / nested / string switches, loops, local / "
             "inherited / function-pointer calls, macros vs hand expansion, literals, zero-comparison rewrites, mapping algebra "
             "around every growMap threshold, self-operand / aliased-operand / freshness forms of the container and string operators "
             "(x op= x, x = x op x, a second reference held before, the alias as operand; local, global, array element, mapping value), "
+            "functionals ((: :) with $N, $(..) bound at creation, nested, stored and re-applied, (*f)(), through a helper, anonymous "
+            "functions) next to their by-value expansion, unit traces of add_array with chosen reference counts, "
             "unit traces of the mapping table and of handle_define) over the boundary value set "
             "(int64 extremes, mixed int/float, empty and multibyte strings, containers across hash-table thresholds); each "
-            "program has 2..12 sibling functions; 14 negative traces check the oracle on every run; a case is "
+            "program has 2..12 sibling functions; 19 negative traces check the oracle on every run; a case is "
             "non-trivial when at least one function returns a value (not an error); distinct = distinct canonical trace")
     not_covered = ["identity of arrays and mappings: == on containers, stores seen through a shared reference (b = a; a[0] = 1) - the "
                    "reference evaluates by value, the generator only produces programs where LPC promises value semantics (self / aliased "
-                   "operands and freshness of results are generated and judged; there is no heap-level theorem)",
+                   "operands and freshness of results are generated and judged; heap-level theorem for add_array only - string join, "
+                   "absorb_mapping / compose_mapping in-place paths are compared, not proved)",
+                   "functionals: missing / surplus arguments beyond the generated shapes, varargs, function pointers stored in containers "
+                   "or passed between objects, bind(); code generation for functionals (icode.c) is compared through programs only",
                    "class members as operands of the self-operand forms; `&` / `|` on arrays",
                    "shift counts outside 0..63 (C undefined behaviour; the model uses the x86 masking)",
                    "sign of a floating zero produced by folded `0 - x`",
@@ -1491,6 +1501,13 @@ class C03(Prop):
         else:
             a = pick_scalar(rng) if rng.chance(4, 5) else rng.choice([small_arr(rng), Map([(I(1), I(2))]), Buf([65, 66])])
             b = pick_scalar(rng) if rng.chance(4, 5) else rng.choice([small_arr(rng), Map([(I(1), I(3)), (I(4), I(5))]), Buf([67])])
+        if op in ("div", "mod", "mul"):
+            # zero on either side, in either numeric type: the divisor test must look at the divisor, whatever the dividend is
+            zs = [I(0), Fl(0.0)] if op != "mod" else [I(0)]
+            if rng.chance(1, 3):
+                a = rng.choice(zs)
+            if rng.chance(1, 3):
+                b = rng.choice(zs)
         fns = [[("expr", ("asg", L(A), a)), ("expr", ("asg", L(B), b)), ("expr", ("aop", op, L(A), L(B))), ("ret", L(A))],
                [("expr", ("asg", L(A), a)), ("expr", ("asg", L(B), b)), ("expr", ("asg", L(A), ("bin", op, L(A), L(B)))), ("ret", L(A))],
                [("expr", ("asg", G(0), a)), ("expr", ("asg", G(1), b)), ("expr", ("aop", op, G(0), G(1))), ("ret", G(0))],
@@ -1501,6 +1518,23 @@ class C03(Prop):
         return make_case(cid, fns, meta={"origin": "generated", "family": "assignop"})
 
     def fam_literal(self, rng, cid):
+        if rng.chance(1, 3):
+            # mapping literals with REPEATED keys (the later value wins), keys of mixed types, next to the element-wise build
+            pool = [I(0), I(1), I(16), I(2 ** 32), I(-1), S(b"a"), S(b"b"), S(b""), Fl(0.0), Fl(1.0), Fl(2.5)]
+            n = rng.range(2, 9)
+            ks = [rng.choice(pool) for _ in range(rng.range(1, 4))]
+            keys = [rng.choice(ks) if rng.chance(1, 2) else rng.choice(pool) for _ in range(n)]
+            vals = [rng.choice([I(100 + q), S(b"v%d" % q), Arr([I(q)])]) for q in range(n)]
+            lit = Map(list(zip(keys, vals)))
+            build = [("expr", ("asg", L(A), Map([])))] + [("expr", ("asg", ("idx", L(A), k), v)) for k, v in zip(keys, vals)]
+            vkeys = [("expr", ("asg", L(B), Arr(keys)))]
+            litv = Map([(("idx", L(B), I(q)), v) for q, v in enumerate(vals)])      # keys known only at run time
+            rd = lambda m: Arr([("efun", "sizeof", [m])] + [("idx", m, k) for k in ks])
+            fns = [[("expr", ("asg", L(A), lit)), ("ret", Arr([L(A), rd(L(A))]))],
+                   build + [("ret", Arr([L(A), rd(L(A))]))],
+                   vkeys + [("expr", ("asg", L(A), litv)), ("ret", Arr([L(A), rd(L(A))]))],
+                   [("expr", ("asg", G(0), lit)), ("ret", Arr([G(0), rd(G(0))]))]]
+            return make_case(cid, fns, meta={"origin": "generated", "family": "literal", "kind": "mapdup"})
         vals = [rng.choice(INTS + [-128, 127, 128, -129, 65535, 65536, -65536, 2 ** 31 - 2, 2 ** 63 - 2]) for _ in range(rng.range(1, 12))]
         fns = [[("ret", Arr([I(v) for v in vals]))],
                [("expr", ("asg", L(A), Arr([]))), ] + [("expr", ("aop", "add", L(A), Arr([("bin", "add", ("bin", "sub", I(v), L(LI)), L(LI))]))) for v in vals] +
@@ -2198,7 +2232,7 @@ class C03(Prop):
         return E.Case(cid, lines, {"origin": "generated", "family": "arrtrace"})
 
     FAMS = [("fam_binop", 9), ("fam_unop", 2), ("fam_incdec", 3), ("fam_index", 5), ("fam_range", 5), ("fam_lvalue", 6),
-            ("fam_switch", 6), ("fam_loop", 6), ("fam_assignop", 5), ("fam_literal", 2), ("fam_rewrite", 4), ("fam_macro", 3), ("fam_calls", 5), ("fam_mapalg", 7), ("fam_maptrace", 5), ("fam_macrosubst", 7), ("fam_mdef", 4), ("fam_strswitch", 6), ("fam_selfop", 8), ("fam_funp", 8), ("fam_arrtrace", 3)]
+            ("fam_switch", 6), ("fam_loop", 6), ("fam_assignop", 5), ("fam_literal", 3), ("fam_rewrite", 4), ("fam_macro", 3), ("fam_calls", 5), ("fam_mapalg", 7), ("fam_maptrace", 5), ("fam_macrosubst", 7), ("fam_mdef", 4), ("fam_strswitch", 6), ("fam_selfop", 8), ("fam_funp", 8), ("fam_arrtrace", 3)]
 
     def generate(self, rng, n, tier):
         out = []
